@@ -307,6 +307,14 @@ class Exec:
                 out.extend(scratch)
                 out.append({"e": "store", "lv": g, "op": "=", "val": val if val is not None else ("unk", "init"), "l": dv["l"], "t": t, "ct": "",
                             "once": True})
+            elif init is not None:
+                # a non-const static with an initialiser: also initialised only by the first call
+                scratch = []
+                val = self.ev(init, scratch)
+                out.extend(scratch)
+                pure = val is not None and not any(st[0] in ("obj", "new", "sym", "var", "fld", "glob", "unk") for st in sym.subterms(val))
+                out.append({"e": "store", "lv": g, "op": "=", "val": val if val is not None else ("unk", "init"), "l": dv["l"], "t": t, "ct": "",
+                            "once": not pure, "static_init": True})
             self.env[vid] = ("cell", g, None)
             return
         if is_ref_type(t):
